@@ -160,6 +160,7 @@ async def build_real(ctx, desc, workdir):
     realnames = {}
     deploy = None
     dconf = None
+    EXTRA_DEPLOY = {}
     for s in desc["steps"]:
         k, name = s["kind"], "/" + s["name"]
         if k in ("fwd", "mul"):
@@ -217,14 +218,27 @@ async def build_real(ctx, desc, workdir):
                 P["__conn__"] = cport
                 deploy = wf.create_step(cls=DeployStep, name="/__deploy__/__LOCAL__", deployment_config=dconf,
                                         connector_port=cport)
+            extra = {}      # further targets of the binding (desc["targets"] = k): local deployments L2..Lk, one DeployStep each
+            if not desc.get("remote"):
+                for i in range(2, int(desc.get("targets", 1)) + 1):
+                    if "__conn%d__" % i not in P:
+                        dc = DeploymentConfig(name="L%d" % i, type="local", config={}, external=True, lazy=False, workdir=workdir)
+                        P["__conn%d__" % i] = wf.create_port(cls=ConnectorPort, name="__conn%d__" % i)
+                        dstep = wf.create_step(cls=DeployStep, name="/__deploy__/L%d" % i, deployment_config=dc,
+                                               connector_port=P["__conn%d__" % i])
+                        realnames["dep%d" % i] = [dstep.name]
+                        EXTRA_DEPLOY[i] = (dc, dstep)
+                    extra[i] = EXTRA_DEPLOY[i]
             if desc.get("remote"):
                 binding = BindingConfig(targets=[Target(deployment=dconf, locations=desc["remote"].get("per_job", 1), workdir="/tmp")])
             else:
-                binding = BindingConfig(targets=[Target(deployment=dconf, workdir=workdir)])
+                binding = BindingConfig(targets=[Target(deployment=dconf, workdir=workdir)]
+                                        + [Target(deployment=dc, workdir=workdir) for dc, _ in extra.values()])
             jport = wf.create_port(cls=JobPort, name=s["name"] + ".job")
             P[s["name"] + ".job"] = jport
             sched = wf.create_step(cls=ScheduleStep, name=name + "/__schedule__", job_prefix=name,
-                                   connector_ports={dconf.name: deploy.get_output_port()},
+                                   connector_ports=dict({dconf.name: deploy.get_output_port()},
+                                                        **{dc.name: dstep.get_output_port() for dc, dstep in extra.values()}),
                                    binding_config=binding, job_port=jport,
                                    **({"output_directory": desc["remote"]["pin_output"]} if desc.get("remote", {}).get("pin_output") else {}))
             ex = wf.create_step(cls=ExecuteStep, name=name, job_port=jport)
